@@ -207,8 +207,10 @@ CHECKS = {
          "aggregates/includes from string and file, API construction across the 16-child growth steps, set_string, set_include_dir + "
          "include, write, overrides; strings assembled from several pieces across the 64-byte string-buffer growth steps) the k-th "
          "allocation requested by library code is failed for EVERY k; each must reach the handler; and two failures in one process "
-         "with a handler that leaves by longjmp (as the C++ layer's throw does) must both reach it."),
-   note=TB + "Not decided: behaviour after a handler that returns (documented as undefined); allocations inside libc. The C++ bad_alloc path is exercised under C17.",
+         "with a handler that leaves by longjmp (as the C++ layer's throw does) must both reach it. C++ layer: every allocation inside a "
+         "scenario of C++ calls (construction, reads, lookups, every non-throwing lookupValue overload, iteration, writes) is failed in turn; "
+         "each must surface as std::bad_alloc, never as a normal return with a different result."),
+   note=TB + "Not decided: behaviour after a handler that returns (documented as undefined); allocations inside libc.",
    technique='kernel-decided theorem over a translated allocation-site inventory + abstract failure model in Lean 4 + exhaustive single-fault (and repeated-fault) enumeration', ref='§5 C13'),
  'C14': dict(
    text=("Partial. Proved: C14_statics / C14_imports — over inventories re-extracted on every run (nm on the compiled objects + preprocessed "
@@ -218,8 +220,9 @@ CHECKS = {
          "and outputs of running alone (induction over the schedule, any number of threads, any programs). Validation on the real code: "
          "2..16 threads run independent workloads (parse from string and file with includes, failing parses, edits, removals, lookups, "
          "writes with different options/precisions incl. huge floats and precisions above 15, write_file + read back) under "
-         "ThreadSanitizer, the very first library use of the process being concurrent; each thread's transcript is compared with its "
-         "serial run."),
+         "ThreadSanitizer, the very first library use of the process being concurrent; failing reads and per-thread allocation faults "
+         "with a handler that leaves by longjmp are part of the workload (a failure on one thread must not change what a later failure "
+         "on any thread does); each thread's transcript is compared with its serial run."),
    note=TB + "The C memory model and libc internals are outside the model; TSan sees executed paths only. The C++ layer is exercised by a second TSan harness (threads constructing, using and destroying their own Config objects); known finding C14:cpp-constructor-writes-global-handler (every Config constructor writes the process-wide fatal-error function pointer) is reproduced and classified per report on every run.",
    technique='kernel-decided theorems over translated static-object/import inventories + commutation theorem in Lean 4 + TSan transcript comparison', ref='§5 C14'),
  'C15': dict(
@@ -229,7 +232,8 @@ CHECKS = {
          "with a comma-decimal locale synthesised offline: global C/comma x thread none/comma, through the three read entry points and "
          "every outcome of a read (success, parse error, failing caller stream, file whose read fails, missing file), config_write, "
          "config_write_file + read back and a failing config_write_file; observed: written text, round trip, uselocale(NULL) identity, setlocale(LC_ALL,NULL), "
-         "printf radix before/after."),
+         "printf radix before/after; and two threads whose calls overlap in time (one parked inside its include function in the middle of "
+         "a read while the other reads and writes floats), under all four set-ups."),
    note=TB + "Only the radix character is modelled; the C++ wrappers call the same C functions (checked under C17).",
    technique='state-machine theorems in Lean 4 + differential correspondence under a synthesised comma-decimal locale', ref='§5 C15'),
  'C20': dict(
@@ -241,7 +245,8 @@ CHECKS = {
          "combines them. Tied to the code by reading the same bytes through "
          "config_read_string, config_read on fmemopen and on an fopencookie stream delivering 1/7/4095/4096/8191/8192/8193/random-sized "
          "pieces, an fopencookie stream whose delivery is interrupted by a signal (EINTR) and resumed, and config_read_file, with every token kind slid across the 8 KiB, 16 KiB (and 32 KiB) boundaries and single tokens "
-         "that exactly fill or overflow flex's 16 KiB buffer; direct oracle: equal result, error text, line and tree."),
+         "that exactly fill or overflow flex's 16 KiB buffer, every read made on a configuration whose previous read failed (no state of an "
+         "earlier call may leak into the outcome); direct oracle: equal result, error text, line and tree."),
    note=TB + "flex's buffer refill arithmetic is modelled too (FlexBuffer.lean: yy_create_buffer / yy_flush_buffer / yy_get_next_buffer stage by stage, pinned to the generated text by Properties/Skeleton.lean and validated against an instrumented scanner.c) with C20B_in_bounds (every load and store inside the current allocation, num_to_read >= 1 whenever YY_INPUT is called), C20B_content (no byte lost or duplicated across moves, growth and refills), C20B_progress / C20B_no_livelock, C20B_flex_many (the buffered matcher = Flex.next on the idealised input) and C20B_seeded_breaks_all (with the growth test `< 0` the invariant fails for every buffer size: the seeded change, refuted in general). yyrealloc is assumed to succeed; sizes are Nat with an explicit no-overflow condition (streams shorter than 2^30-1 bytes).",
    technique='chunking-independence and entry-point simulation theorems in Lean 4 + differential correspondence at buffer boundaries', ref='§5 C20'),
  'C16': dict(
